@@ -51,9 +51,13 @@ func draw(t *rapid.T) *pbt.Case {
 	for i := 0; i < n; i++ {
 		k := rapid.SampledFrom(annot).Draw(t, "annot")
 		if rapid.IntRange(0, 7).Draw(t, "other") == 0 {
-			k = rapid.SampledFrom([]string{"wrap", "stack", "secondary", "mark", "goerrorf", "safedetails"}).Draw(t, "otherkind")
+			k = rapid.SampledFrom([]string{"wrap", "stack", "secondary", "mark", "goerrorf", "safedetails", "uwrapcause", "uwrapcause", "uwrapnofmt", "pkgstack"}).Draw(t, "otherkind")
 		}
-		w := g.WrapOf(t, k, s)
+		gg := g
+		if k == "uwrapcause" || k == "uwrapnofmt" || k == "goerrorf" || k == "wrap" {
+			gg = reg // message-bearing wrappers get non-empty regular messages
+		}
+		w := gg.WrapOf(t, k, s)
 		for j := range w.X {
 			// secondary / mark sub-errors carrying hints: must not contribute
 			w.X[j] = g.WrapOf(t, "hint", reg.LeafOf(t, "goerr"))
